@@ -62,7 +62,7 @@ fn gen_cfg(t: &mut Tape) -> Cfg {
     let napps = 1 + t.choose(4);
     let apps: Vec<AppSpec> = (0..napps)
         .map(|i| AppSpec {
-            id: format!("{}{i}", t.pick(&["app", "integration-test-appid-", "{0000-", "a b"])),
+            id: format!("{}{i}", t.pick(&["app", "integration-test-appid-", "{0000-", "a b", "{8A69D345-D564-463C-AFF1-A69D9E530F9", "MixedCase.App-", "\u{c9}t\u{e9}-"])),
             version: vec![t.choose(5) as u32, t.u32_biased(), t.choose(3) as u32, 1 + t.choose(9) as u32],
             fingerprint: None,
             cohort: [t.option(|t| t.ident(5)), t.option(|t| t.ident(5)), t.option(|t| t.ident(5))],
